@@ -135,6 +135,8 @@ func main() {
 		r.Floor("waits entered around the deadline of their context", r.Table("deadline-entry", "rounds"), 2000)
 		r.Cases("gen-mix", r.Scale(400, 6000), 1, func(c *vkit.Case) { genMix(c) })
 		r.Floor("rounds with waiters of two generations (Broadcast, newcomer, Signal)", r.Table("gen-mix", "rounds"), 300)
+		r.Cases("bcast-vs-reader", r.Scale(3000, 40000), 1, func(c *vkit.Case) { bcastVsReader(c) })
+		r.Floor("rounds with a Broadcast racing a Signal or a newcomer's entry while older waiters are parked", r.Table("bcast-vs-reader", "rounds"), 2000)
 		r.Floor("late-entrant rounds", r.Table("late-entrant", "rounds"), 300)
 		r.Floor("rounds with two overlapping Broadcasts around a waiter's entry", r.Table("bcast-overlap", "rounds"), 2000)
 		r.Floor("multi-phase histories on one cond", r.Table("phases", "histories"), 300)
